@@ -71,7 +71,9 @@ impl Time {
         if self.d.is_zero() {
             return Duration::MAX;
         }
-        let elapsed = self.created_at.elapsed().unwrap();
+        // A wall clock stepped back to before `created_at` (time daemon, VM resume,
+        // administrator) makes the difference negative: no time has elapsed then.
+        let elapsed = self.created_at.elapsed().unwrap_or_default();
         if elapsed >= self.d {
             Duration::ZERO
         } else {
